@@ -913,6 +913,10 @@ def _sig_cost(sig, L):
     return sum((a if l <= 4 else a - 1) ** l for l in range(L + 1))
 
 
+# coverage-guided stage (atheris drives these Hypothesis shards, see vf/run.py): {tier: {shard kind: (shards, executions)}}
+CG = {'quick': {'e2e': (1, 600)}, 'thorough': {'e2e': (6, 20000)}}
+
+
 def plan(tier, seed, scale=1.0):
     b = BOUNDS[tier]
     ids = [i for i, s in enumerate(MASTER) if n_params(s) <= b["N"]]
